@@ -6,7 +6,7 @@ from ..core import *
 from .c04 import judge
 
 IMPORTS = 'From OFV Require Import Base.Cplx Base.Mat Model.Givens Check.GivensCheck.\n'
-NEEDS = ['Thm/C11/Schedules', 'Check/GivensCheck']
+NEEDS = ['Thm/C11/Schedules', 'Thm/C11/SchedulesF', 'Check/GivensCheck']
 LEVEL = 'translation_validation'
 EPS2 = cQ(Fraction(1, 10 ** 16)); EPS = cQ(Fraction(1, 10 ** 8))
 def cvec(v): return '(' + clist([cC(complex(x)) for x in v]) + ' : vec)'
